@@ -304,7 +304,14 @@ class Status:
         if self.propstat and len(propstat_by_status(self.propstat)) > 1:
             raise NeedsMultiStatus()
         if self.error is not None:
-            raise NeedsMultiStatus()
+            if self.propstat:
+                raise NeedsMultiStatus()
+            # RFC 4918, section 16: a failed precondition is reported with
+            # the status of the request itself and a DAV:error body
+            ret = ET.Element("{DAV:}error")
+            ret.append(self.error)
+            body = ET.tostringlist(ret, encoding)
+            return body, (f'text/xml; encoding="{encoding}"')
         if self.propstat:
             [ret] = list(propstat_as_xml(self.propstat))
             body = ET.tostringlist(ret, encoding)
